@@ -9,6 +9,10 @@ type sentinelErr struct{ s string }
 
 func (e *sentinelErr) Error() string { return e.s }
 
+// the transport's error wraps another one (like *net.OpError): the root cause recovered by the
+// errors package is still the transport's error itself
+func (e *sentinelErr) Unwrap() error { return io.ErrClosedPipe }
+
 var errTransport = &sentinelErr{"transport failed"}
 
 func HarnessC08_FlvReadCut() {
